@@ -133,9 +133,9 @@ def abs_names(thorough=False):
     return out
 
 
-def octet_names():
+def octet_names(full=True):
     """One name per octet value: label = that single octet, under example."""
-    return [([bytes([c]), b"example", b""], octet_class(c)) for c in octets()]
+    return [([bytes([c]), b"example", b""], octet_class(c)) for c in (octets() if full else REP_OCTETS)]
 
 
 def rel_names():
@@ -342,8 +342,10 @@ class NameF(Field):
     def nominal(self):
         return list(self._nom)
 
+    sweep_full = True  # False: the single-octet label sweep uses the 34 representatives
+
     def boundary(self, thorough):
-        return abs_names(thorough) + octet_names()
+        return abs_names(thorough) + octet_names(self.sweep_full)
 
     def rand(self, rng):
         n = rng.choice([1, 1, 2, 3, 5])
